@@ -150,7 +150,7 @@ Proof. apply gates2_sound. vm_compute. reflexivity. Qed.
 (* the expansions matter: without the table's corrections the Steane transversal S is NOT the logical S *)
 Lemma steane_bare_S_is_not_logical_S :
   induces1_b steane (transform (e_n steane) (trans_offsets steane) [] (e_stabs steane) (e_obs steane)
-                               [mkI "S" 0 true [[0]]]) "S" = false.
+                               [mkI "S" 0 true [[0]] []]) "S" = false.
 Proof. vm_compute. reflexivity. Qed.
 
 Definition meas_b (e : enc_table) : bool :=
@@ -253,6 +253,14 @@ Proof.
   - apply Z.ltb_ge in Ev. assert (Hge : ~ v * n + off < 0) by nia. apply Z.ltb_nlt in Hge. rewrite Hge. reflexivity.
 Qed.
 
+Lemma mark_nil vs : mark vs [] = map OQ vs.
+Proof. induction vs as [|v r IH]; [reflexivity|]. cbn [mark map]. rewrite IH. reflexivity. Qed.
+Lemma oq_values_mark vs fs : oq_values (mark vs fs) = vs.
+Proof.
+  revert fs. induction vs as [|v r IH]; intro fs; [reflexivity|].
+  destruct fs as [|b fs]; cbn [mark]; [|destruct (b && bt_keeps_inversion)]; unfold oq_values in *; cbn [flat_map app]; rewrite IH; reflexivity.
+Qed.
+
 (* ---- presolve over instruction blocks *)
 Lemma presolve_skip rc ops rest :
   (forall o, In o ops -> is_meas (oname o) = false /\ is_annot (oname o) = false) ->
@@ -341,8 +349,7 @@ Proof.
       apply andb_true_iff in Hwi. destruct Hwi as [Hsing _].
       rewrite (singletons_concat _ Hsing) at 1.
       unfold trans_stride, trans_offsets, trans_offsets_hi. rewrite broadcast_1q.
-      replace (oq_values (map OQ (flat_map (block (e_n e)) (List.concat (igroups i))))) with (flat_map (block (e_n e)) (List.concat (igroups i))).
-      2:{ induction (flat_map (block (e_n e)) (List.concat (igroups i))) as [|x l IHl]; [reflexivity|]. cbn [map oq_values flat_map app]. f_equal. exact IHl. }
+      rewrite oq_values_mark.
       rewrite <- flat_map_app. apply IH. exact Hwr.
     + destruct (String.eqb (iname i) "DETECTOR") eqn:Ed.
       * (* DETECTOR *)
@@ -403,21 +410,21 @@ Qed.
 (* placement of transversal gates *)
 Lemma transversal_1q e g meta qs :
   String.eqb g "DETECTOR" = false -> String.eqb g "OBSERVABLE_INCLUDE" = false ->
-  transversal e [mkI g meta true (map (fun q => [q]) qs)]
+  transversal e [mkI g meta true (map (fun q => [q]) qs) []]
   = map (fun nm => mkO nm meta (map OQ (flat_map (block (e_n e)) qs))) (gate_seq (e_exps e) g).
 Proof.
   intros Hd Ho. unfold transversal, transform. cbn [flat_map]. rewrite app_nil_r.
-  unfold transform_instr. cbn [ihas negb iname imeta igroups]. rewrite Hd, Ho. cbn [andb].
-  unfold trans_stride, trans_offsets, trans_offsets_hi. rewrite broadcast_1q. reflexivity.
+  unfold transform_instr. cbn [ihas negb iname imeta igroups iinv]. rewrite Hd, Ho. cbn [andb].
+  unfold trans_stride, trans_offsets, trans_offsets_hi. rewrite broadcast_1q. cbn [broadcast_flags flat_map]. rewrite mark_nil. reflexivity.
 Qed.
 Lemma transversal_2q e g meta pairs :
   String.eqb g "DETECTOR" = false -> String.eqb g "OBSERVABLE_INCLUDE" = false ->
-  transversal e [mkI g meta true (map (fun ab => [fst ab; snd ab]) pairs)]
+  transversal e [mkI g meta true (map (fun ab => [fst ab; snd ab]) pairs) []]
   = map (fun nm => mkO nm meta (map OQ (pair_targets (e_n e) pairs))) (gate_seq (e_exps e) g).
 Proof.
   intros Hd Ho. unfold transversal, transform. cbn [flat_map]. rewrite app_nil_r.
-  unfold transform_instr. cbn [ihas negb iname imeta igroups]. rewrite Hd, Ho. cbn [andb].
-  unfold trans_stride, trans_offsets, trans_offsets_hi. rewrite broadcast_2q. reflexivity.
+  unfold transform_instr. cbn [ihas negb iname imeta igroups iinv]. rewrite Hd, Ho. cbn [andb].
+  unfold trans_stride, trans_offsets, trans_offsets_hi. rewrite broadcast_2q. cbn [broadcast_flags flat_map]. rewrite mark_nil. reflexivity.
 Qed.
 Lemma transversal_app e p1 p2 : transversal e (p1 ++ p2) = transversal e p1 ++ transversal e p2.
 Proof. unfold transversal, transform. apply flat_map_app. Qed.
@@ -511,8 +518,8 @@ Lemma exps_safe_color5 : exps_safe (e_exps color5) = true. Proof. vm_compute. re
 (* ================================================================== 5. non-vacuity witnesses *)
 Ltac nodup_tac := repeat (constructor; [let HH := fresh "HH" in cbn [In]; intro HH; repeat (destruct HH as [HH|HH]; [discriminate HH|]); exact HH|]); constructor.
 Lemma gate_prog_example :
-  Forall gate_instr [mkI "H" 0 true (map (fun q => [q]) [0; 2]); mkI "S" 1 true (map (fun q => [q]) [1]);
-                     mkI "CX" 2 true (map (fun ab => [fst ab; snd ab]) [(0, 1)])].
+  Forall gate_instr [mkI "H" 0 true (map (fun q => [q]) [0; 2]) []; mkI "S" 1 true (map (fun q => [q]) [1]) [];
+                     mkI "CX" 2 true (map (fun ab => [fst ab; snd ab]) [(0, 1)]) []].
 Proof.
   constructor; [|constructor; [|constructor; [|constructor]]].
   - apply gate_1q; [cbn; tauto | discriminate | nodup_tac].
@@ -520,8 +527,8 @@ Proof.
   - apply gate_2q; [cbn; tauto | discriminate | cbn [flat_map fst snd app]; nodup_tac].
 Qed.
 Definition example_tail : list instr :=
-  [mkI "M" 0 true [[0]; [1]; [2]]; mkI "DETECTOR" 1 true [[-1]]; mkI "DETECTOR" 2 true [[-3]; [-2]];
-   mkI "OBSERVABLE_INCLUDE" 3 true [[-2]]]%string.
+  [mkI "M" 0 true [[0]; [1]; [2]] []; mkI "DETECTOR" 1 true [[-1]] []; mkI "DETECTOR" 2 true [[-3]; [-2]] [];
+   mkI "OBSERVABLE_INCLUDE" 3 true [[-2]] []]%string.
 Lemma tail_example :
   forallb wf_instr example_tail = true /\ all_some (lresolve [] example_tail) /\
   presolve [] (transversal steane example_tail) =
@@ -538,3 +545,26 @@ Proof.
 Qed.
 Lemma premises_consistent : forall e, PhysicsPremises e (fun _ _ => True) True (fun _ _ _ _ => True).
 Proof. intro e. unfold PhysicsPremises. repeat split. Qed.
+
+(* ================================================================== 6. every entry of the expansion table is a correct logical gate
+   (whatever gates the table lists, also beyond the gate set of the property; unknown names fail closed) *)
+Definition entry_ok_b (e : enc_table) (g : string) : bool :=
+  match img1 g with
+  | Some _ => preserves_stab_b e (transversal1 e g) && induces1_b e (transversal1 e g) g
+  | None => preserves_stab2_b e (transversal2 e g) && induces2_b e (transversal2 e g) g
+  end.
+Definition EntryOk (e : enc_table) (g : string) : Prop :=
+  (PreservesStab e (transversal1 e g) /\ Induces1 e (transversal1 e g) g) \/
+  (PreservesStab2 e (transversal2 e g) /\ Induces2 e (transversal2 e g) g).
+Lemma entries_sound e : forallb (fun kv => entry_ok_b e (fst kv)) (e_exps e) = true ->
+  forall g, In g (map fst (e_exps e)) -> EntryOk e g.
+Proof.
+  intros H g Hg. apply in_map_iff in Hg. destruct Hg as [kv [<- Hin]]. rewrite forallb_forall in H. specialize (H kv Hin).
+  unfold entry_ok_b in H. unfold EntryOk. destruct (img1 (fst kv)).
+  - left. apply andb_true_iff in H. destruct H as [A B]. split; [apply preserves_stab_sound | apply induces1_sound]; assumption.
+  - right. apply andb_true_iff in H. destruct H as [A B]. split; [apply preserves_stab2_sound | apply induces2_sound]; assumption.
+Qed.
+Lemma entries_steane : forall g, In g (map fst (e_exps steane)) -> EntryOk steane g.
+Proof. apply entries_sound. vm_compute. reflexivity. Qed.
+Lemma entries_color5 : forall g, In g (map fst (e_exps color5)) -> EntryOk color5 g.
+Proof. apply entries_sound. vm_compute. reflexivity. Qed.
